@@ -165,8 +165,16 @@ func (p *polling) onDataRequest(ctx *types.HttpContext) {
 		packet = types.NewStringBuffer(nil)
 	}
 	if body := ctx.Request().Body; body != nil {
-		packet.ReadFrom(body)
+		// the length may be undeclared (chunked): never read more than the limit
+		n, _ := packet.ReadFrom(io.LimitReader(body, p.MaxHttpBufferSize()+1))
 		body.Close()
+		if n > p.MaxHttpBufferSize() {
+			cleanup()
+
+			ctx.SetStatusCode(http.StatusRequestEntityTooLarge)
+			ctx.Write(nil)
+			return
+		}
 	}
 	p.Proto().OnData(packet)
 
